@@ -246,6 +246,54 @@ def fullChunked (b : Buffers) (V : Nat) (sos : Int) (B : Nat) (hist : List (List
   let first := (List.range Nm1).map (fun i => calcIdxScalar b V sos B (hist.take i) i)
   first ++ chunkLoop b V sos B T Nm1 chunk hist.flatten (T + 1) Nm1
 
+/-! ### memory layout of the history tensor
+
+`hist` is a `(T, B)` *view*: a storage, a storage offset and two strides (a transposed
+batch-first tensor, a slice of a longer tensor, every second row, a column block of a wider
+tensor, an expanded column …). Everything except `calc_full_log_probs_chunked` indexes the
+view logically (`View.rows`). The chunked evaluation calls `hist.contiguous()` – which
+returns the *same* tensor (same storage, same storage offset) when torch considers the view
+contiguous and a fresh row-major copy otherwise – and then `as_strided` with an **absolute**
+storage offset: `hist.storage_offset() + B*(t - Nm1)` (the repaired code; the pinned code
+forgot `storage_offset()`, fixes/C06-chunked-storage-offset.diff). -/
+
+structure View where
+  storage : List Int
+  off : Nat               -- storage_offset()
+  sT : Nat                -- stride(0)
+  sB : Nat                -- stride(1)
+  T : Nat
+  B : Nat
+  deriving Repr
+
+/-- Element `[t, b]` of the view. -/
+def View.get (v : View) (t b : Nat) : Int := v.storage.getD (v.off + t * v.sT + b * v.sB) 0
+
+/-- The logical content, row-major. -/
+def View.rows (v : View) : List (List Int) :=
+  (List.range v.T).map (fun t => (List.range v.B).map (fun b => v.get t b))
+
+/-- `Tensor.is_contiguous()` for two dimensions: no elements, or every dimension of size
+`≠ 1` has the row-major stride. -/
+def View.isContig (v : View) : Bool :=
+  if v.T * v.B = 0 then true
+  else (v.B == 1 || v.sB == 1) && (v.T == 1 || v.sT == v.B)
+
+/-- `hist.contiguous()`: `self` when contiguous, else a fresh row-major copy (offset 0). -/
+def View.contiguous (v : View) : View :=
+  if v.isContig then v else ⟨v.rows.flatten, 0, v.B, 1, v.T, v.B⟩
+
+/-- `calc_full_log_probs_chunked` on a view. `hist[:idx_]` is logical slicing; the strided
+windows are read from the storage of `hist.contiguous()`, starting at its storage offset. -/
+def fullChunkedView (b : Buffers) (V : Nat) (sos : Int) (v : View) (chunk : Nat) :
+    List (List (List LogP)) :=
+  let c := v.contiguous
+  let hist := c.rows
+  let T := c.T
+  let Nm1 := min T (b.N - 1)
+  let first := (List.range Nm1).map (fun i => calcIdxScalar b V sos c.B (hist.take i) i)
+  first ++ chunkLoop b V sos c.B T Nm1 chunk (c.storage.drop c.off) (T + 1) Nm1
+
 /-- `calc_full_log_probs` of the base class: one index at a time on the whole history. -/
 def fullByIdx (b : Buffers) (V : Nat) (sos : Int) (B : Nat) (hist : List (List Int)) :
     List (List (List LogP)) :=
